@@ -55,6 +55,23 @@ CHECKS = {
    technique="TLC model checking of TextPrinter.tla against an RFC 4180 reader written from the RFC (MC_C15: CsvReadBack, TextFields) + trace validation of real csv/text output: the TLA+ csv reader is run on the recorded bytes (Trace_C15)",
    text="TLC shows that the csv output of every row of <= 2 selections over all value types, absent, and strings over quote, comma, CR, LF, TAB, blank, non-ASCII is read back by the RFC 4180 reader field for field, and that text rows have N-1 separators; real runs (1..5 selections, 0..6 rows, all text options incl. several escape sequences, prefixes, keywords, headers, missing-value keyword, row separators) are validated by running that reader on the recorded stdout.",
    note="Trusted: the Rust harness; TLC. In text mode separators are chosen not to occur in the data.", design="DESIGN.md section 6 C15"),
+
+ "C16": dict(
+   technique="TLC model checking of Run.tla with a failing read at every byte offset of every input and a failing write at every offset of stdout (MC_Run: FaultIsError, ReadFaultFinal, WritePrefix, StreamingPrefix) + trace validation: the trace specification drives Run's own actions on each recorded configuration and compares (Trace_Run kind=fault)",
+   text="TLC shows on the run-level model that every single read fault (every offset, end of input included, 9 input layouts) and every write fault (every offset) ends the run in error, that nothing is dispatched or opened after a read fault, and that for streaming pipelines stdout is a prefix of the fault-free output; a 'read error taken for end of input' deviation must yield the counterexample. For 40 (2 500) generated inputs the real code is run with a fault at every read offset (after random Interrupted results and short reads) and every write offset (with short writes), under the four policies and streaming/buffering pipelines, next to the fault-free run, and every record is validated by stepping the Run machine.",
+   note='Trusted: the Rust harness (instrumented reader/writers, stdin factory counter, named pipe feeder); TLC. The run-level model abstracts the pipeline to three shapes (plain, input-context, merge).', design="DESIGN.md section 6 C16"),
+ "C17": dict(
+   technique="TLC: input-context positions of JsonLexer against the spans of the reference grammar over all short streams x separators (MC_C17), indices/files on Run.tla (MC_Run: Indices, WritePrefix) + trace validation of real runs: delivery variants, file partitions, input-context rows (Trace_Run kinds same/files/ctx)",
+   text="TLC shows that for every stream of <= 2 (3) texts with every separator choice the lexer's ranges contain the text delimited by the reference grammar, are contiguous, read at most one byte ahead and count lines by newlines (touching texts start one byte late: known finding, expected counterexample), and that the incremental run machine's &index / &index-in-file / positions equal the file-by-file computation for layouts incl. an empty file and a value cut by a file boundary. Real runs: one delivery against another (1-byte reads, random chunks, whole, regular file, 20 KiB inputs with tokens across the 8 KiB marks), f1..fn against each file alone (also cut inside a value), and the input-context selectors of every row against the byte spans of the reference grammar.",
+   note='Trusted: the Rust harness (instrumented reader/writers, stdin factory counter, named pipe feeder); TLC. The run-level model abstracts the pipeline to three shapes (plain, input-context, merge).' + " Directories are not used as inputs.", design="DESIGN.md section 6 C17"),
+ "C18": dict(
+   technique="TLC invariant RejectBeforeIO on Run.tla (validate precedes open/start) + trace validation of single-fault corruptions of valid configurations (Trace_Run kind=invalid)",
+   text="TLC shows on the run-level model that an invalid configuration exits in error with nothing opened, pulled or written (a validate-late deviation must yield the counterexample). 400 (30 000) valid generated configurations get exactly one fault - truncation, unbalanced parenthesis, unknown function, arity -1/+1 for every function and alias, trailing garbage, unterminated string, bad sort direction, --set without '=', duplicate --set, macro with trailing garbage, options of another output style, csv without selection or with grouping, unknown option - in a random option position with every output style; the run must fail, write nothing, never call the stdin factory and never take a byte from a named pipe; the uncorrupted configuration must be accepted.",
+   note='Trusted: the Rust harness (instrumented reader/writers, stdin factory counter, named pipe feeder); TLC. The run-level model abstracts the pipeline to three shapes (plain, input-context, merge).' + " Invalidity of the corrupted configurations is by construction of the generator.", design="DESIGN.md section 6 C18"),
+ "C20": dict(
+   technique="TLC invariants ExitStatus, Streams, PolicyDispatch on Run.tla (process level) + trace validation of the real executable spawned with pipes (Trace_Run kind=proc)",
+   text="TLC shows on the run-level model that the exit status is 0 exactly when the run succeeded, a failed run writes to fd 2, and diagnostics go only to the stream the policy names (the historical wiring of stdout as error stream must yield the counterexample). The real binary built from /repo is spawned 200 (5 000) times: clean/noisy inputs x four policies x valid/invalid configurations x stdout normal / closed by the reader / full device, stdin that fails to read, all-garbage input on an unwritable stdout; exit status, the two streams and the rows (against the in-process run) are validated.",
+   note='Trusted: the Rust harness (instrumented reader/writers, stdin factory counter, named pipe feeder); TLC. The run-level model abstracts the pipeline to three shapes (plain, input-context, merge).' + " A stdout descriptor closed before exec is swallowed by the Rust runtime and is not used.", design="DESIGN.md section 6 C20"),
 }
 def main():
     checks = []
